@@ -31,8 +31,8 @@ type pruneRun struct {
 	truth map[uint64]*truth
 	trace []string
 	// read tap used as the runaway guard of a pruning call
-	armed   bool
-	reads   int
+	armed     bool
+	reads     int
 	aborted   bool
 	evaluated bool
 	rel       string // K against the chain height L at the latest pruning call
